@@ -470,7 +470,7 @@ def expectedK (pk : PktK) : Option Out → Int
 /-! ## Relation to C01's compiled program (sets inlined) -/
 
 /-- The packet of C01 seen by the kernel; `wan` = the caller is the WAN egress hook. -/
-def toK (p : Pkt) (wan : Bool) : PktK :=
+def toK (p : C01.Pkt) (wan : Bool) : PktK :=
   ⟨p.l4, p.ipver, p.pname, p.dscp, bpfBool wan, p.sport, p.dport, p.src, p.dst, p.mac⟩
 
 /-- the outbound byte, mark and must flag the builder stores for a tail -/
@@ -524,5 +524,174 @@ def assignShare (hash : List Prefix → Nat) : Builder → List (Entry MCond Out
     let r := assignShare hash h.2 es
     (mkK e h.1 :: r.1, r.2)
 
+/-! ## `compileRoutingMatch`: the control plane's own decoder of a rule image
+
+`BuildUserspace` takes `b.compiledRules` and falls back to `compileRoutingMatches(b.rules)` when the two slices
+differ in length; `compileRoutingMatch` reads the set index with `binary.LittleEndian.Uint32`, the port range with
+`ParsePortRange` (explicit little-endian), masks / DSCP as `Value[0]`, the process name as the 16 `Value` bytes and
+`Mark` as a host-order struct field. -/
+
+/-- `compileRoutingMatch(bpfMatchSet)` on a host of byte order `e`; `none` = "unknown match type". -/
+def decodeGo (e : Endian) (img : List Nat) : Option KEntry :=
+  let t := msType img
+  let mk (c : KCond) : Option KEntry := some ⟨c, msNot img != 0, msOutbound img, msMust img != 0, msMark e img⟩
+  if t = MT_IpSet then mk (.ipSet (msIndex .little img))
+  else if t = MT_SourceIpSet then mk (.srcIpSet (msIndex .little img))
+  else if t = MT_Mac then mk (.macSet (msIndex .little img))
+  else if t = MT_Port then mk (.port (msPortStart .little img) (msPortEnd .little img))
+  else if t = MT_SourcePort then mk (.srcPort (msPortStart .little img) (msPortEnd .little img))
+  else if t = MT_L4Proto then mk (.l4Proto (byteAt img 0))
+  else if t = MT_IpVersion then mk (.ipVersion (byteAt img 0))
+  else if t = MT_ProcessName then mk (.processName (msPname img))
+  else if t = MT_Dscp then mk (.dscp (msDscp img))
+  else if t = MT_DomainSet then mk .domainSet
+  else if t = MT_Fallback then mk .fallback
+  else none
+
+/-- the array `BuildUserspace` hands to the matcher: `b.compiledRules`, or the images decoded again -/
+def userspaceArray (e : Endian) (compiled : List KEntry) (rules : List (List Nat)) : Option (List KEntry) :=
+  if compiled.length = rules.length then some compiled else rules.mapM (decodeGo e)
+
+/-- `common.Ipv6ByteSliceToUint32Array` (four host-order words) … -/
+def keyWords (e : Endian) (bs : List Nat) : List Nat := (List.range 4).map fun j => rd32 e bs (4 * j)
+/-- … and the memory image of those words, which is what `bpf(2)` receives as the hash key -/
+def keyImage (e : Endian) (ws : List Nat) : List Nat := ws.flatMap (wr32 e)
+
+/-! ## A `buildRoutingKernspace` that stops part-way, and the reload transition system
+
+`buildRoutingKernspace` writes the LPM slots (serially or by up to 8 workers, in any order), then the rule images
+(`BpfMapBatchUpdate`, element by element inside the kernel or in the simulated path), then the active length.  A failure
+leaves the maps in one of the states below; the reload handler (`cmd/run.go`) then closes the staged generation
+(`controlPlaneCore.Close` deletes the slots it owns — it owns some only if `BuildKernspace` returned) and calls
+`RebuildReloadDatapath` on the generation that keeps serving. -/
+
+inductive Stage where
+  /-- only the LPM slots of the listed tries were written -/
+  | lpm (written : List Nat)
+  /-- all LPM slots and the first `n` rule images -/
+  | rules (n : Nat)
+  /-- all LPM slots and all rule images, but not the active length -/
+  | noLen
+  /-- `BuildKernspace` returned (the failure came later: listener publication, runtime activation) -/
+  | done
+deriving Repr, DecidableEq
+
+def lpmSome (start : Nat) (tries : List (List Prefix)) (written : List Nat) : List (Nat × List LpmKey) :=
+  written.filterMap fun i => (tries[i]?).map fun t => (ringSlot start i, t.map cidrToKey)
+
+def installUpTo (st : Stage) (start : Nat) (kp : List KEntry) (tries : List (List Prefix)) (m : KMaps) : KMaps :=
+  match st with
+  | .lpm written => { m with lpm := lpmSome start tries written ++ m.lpm }
+  | .rules n =>
+    { m with lpm := (lpmEntries start 0 tries).reverse ++ m.lpm
+             routing := overwritePrefix m.routing (((kp.map (KEntry.rewrite start)).map (encodeGo .little)).take n) }
+  | .noLen => { installGen .little start kp tries m with activeLen := m.activeLen }
+  | .done => installGen .little start kp tries m
+
+/-- `CommitPreparedDatapath` that stops at `stage`: `BuildKernspace`, and only when it returned
+`clearReloadDomainRoutingMap` (the replay of the DNS cache that follows is a domain-map update) -/
+def commitUpTo (st : Stage) (start : Nat) (kp : List KEntry) (tries : List (List Prefix)) (m : KMaps) : KMaps :=
+  let mB := installUpTo st start kp tries m
+  if st = .done then { mB with domain := [] } else mB
+
+/-- one generation: ring start, typed array, LPM sets -/
+structure Gen where
+  start : Nat
+  kp : List KEntry
+  tries : List (List Prefix)
+
+/-- The shared datapath and the generation that serves: the kernel maps, `globalNextLpmIndex`, the live
+generation (whose userspace matcher answers) and its `core.lpmTrieIndices`. -/
+structure Sys where
+  maps : KMaps
+  counter : Nat
+  live : Gen
+  owned : List Nat
+
+inductive Op where
+  /-- a reload that cuts over: `CommitPreparedDatapath` of the new generation, then `InheritLpmIndices(old.Eject…())` -/
+  | reload (kp : List KEntry) (tries : List (List Prefix))
+  /-- a staged reload whose commit stopped at `stage`; the staged generation is closed and the serving one runs
+  `RebuildReloadDatapath` -/
+  | failed (kp : List KEntry) (tries : List (List Prefix)) (stage : Stage)
+  /-- `RebuildReloadDatapath` of the serving generation by itself -/
+  | rebuild
+  /-- any update of `domain_routing_map` (DNS answers, cache replay) -/
+  | dom (d : List (Nat × List Nat))
+
+/-- `RebuildReloadDatapath`: `BuildKernspace` of the serving generation's snapshot at fresh ring slots,
+`ReplaceLpmIndices`, `clearReloadDomainRoutingMap`. -/
+def Sys.rebuild (s : Sys) : Sys :=
+  match reserveRing s.counter s.live.tries.length with
+  | none => s
+  | some (st, c) =>
+    let cur := genSlots st s.live.tries.length
+    { maps := { inheritSlots (installGen .little st s.live.kp s.live.tries s.maps) s.owned cur with domain := [] }
+      counter := c, live := { s.live with start := st }, owned := cur }
+
+/-- a reload that cuts over, the new generation placed at ring start `st` -/
+def Sys.cutover (s : Sys) (kp : List KEntry) (tries : List (List Prefix)) (st c : Nat) : Sys :=
+  let cur := genSlots st tries.length
+  { maps := { inheritSlots (installGen .little st kp tries s.maps) s.owned cur with domain := [] }
+    counter := c, live := ⟨st, kp, tries⟩, owned := cur }
+
+/-- a staged reload that stopped at `stage`: the staged generation is closed (it owns slots only when its
+`BuildKernspace` returned), the serving generation rebuilds -/
+def Sys.abort (s : Sys) (kp : List KEntry) (tries : List (List Prefix)) (stage : Stage) (st c : Nat) : Sys :=
+  let mB := commitUpTo stage st kp tries s.maps
+  let mC := if stage = .done then mB.delSlots (genSlots st tries.length) else mB
+  Sys.rebuild { s with maps := mC, counter := c }
+
+def Sys.step (s : Sys) : Op → Sys
+  | .reload kp tries =>
+    match reserveRing s.counter tries.length with
+    | none => s
+    | some (st, c) => s.cutover kp tries st c
+  | .failed kp tries stage =>
+    match reserveRing s.counter tries.length with
+    | none => s
+    | some (st, c) => s.abort kp tries stage st c
+  | .rebuild => s.rebuild
+  | .dom d => { s with maps := { s.maps with domain := d } }
+
+def Sys.run (s : Sys) (ops : List Op) : Sys := ops.foldl Sys.step s
+
+/-- the first load: empty maps, ring counter 0 -/
+def Sys.boot (kp : List KEntry) (tries : List (List Prefix)) : Sys :=
+  Sys.step ⟨KMaps.empty, 0, ⟨0, [], []⟩, []⟩ (.reload kp tries)
+
+/-! ### what `route()` can observe of a map state -/
+
+/-- the fields `route()` reads of two rule images agree (type-directed: the union member consulted for that type) -/
+def sameReads (a b : List Nat) : Bool :=
+  msType a == msType b && (msNot a != 0) == (msNot b != 0) && msOutbound a == msOutbound b &&
+  (msMust a != 0) == (msMust b != 0) && msMark .little a == msMark .little b &&
+  (let t := msType a
+   if t = MT_Mac ∨ t = MT_IpSet ∨ t = MT_SourceIpSet then msIndex .little a == msIndex .little b
+   else if t = MT_Port ∨ t = MT_SourcePort then
+     msPortStart .little a == msPortStart .little b && msPortEnd .little a == msPortEnd .little b
+   else if t = MT_L4Proto ∨ t = MT_IpVersion then msEnum32 .little a % 256 == msEnum32 .little b % 256
+   else if t = MT_ProcessName then msPname a == msPname b
+   else if t = MT_Dscp then msDscp a == msDscp b
+   else true)
+
+def isLpmType (t : Nat) : Bool := t == MT_Mac || t == MT_IpSet || t == MT_SourceIpSet
+
+def sameSlot (a b : KMaps) (slot : Nat) : Bool :=
+  match a.lpmAt slot, b.lpmAt slot with
+  | none, none => true
+  | some x, some y => keysEquiv x y
+  | _, _ => false
+
+/-- Two map states that `route()` cannot tell apart: same active length, rule images below it that read alike,
+the LPM slots those images name hold the same tries (or are both empty), same domain bitmaps.  Slots no live rule
+names and images beyond the active length are free. -/
+def obsEqB (a b : KMaps) : Bool :=
+  a.activeLen == b.activeLen &&
+  (List.range (min a.activeLen MaxMatchSetLen)).all (fun i =>
+    let x := a.routing.getD i (zeros 24)
+    let y := b.routing.getD i (zeros 24)
+    sameReads x y && (!isLpmType (msType x) || sameSlot a b (msIndex .little x))) &&
+  (a.domain.map (·.1) ++ b.domain.map (·.1)).all (fun k => a.domain.lookup k == b.domain.lookup k)
 
 end DaeVerif.C02
